@@ -235,7 +235,7 @@ class Lines(ConnFamily):
                 line = line.split("?")[0]
                 # small bodies, and bodies larger than a request line may be (the 1024-byte limit is about the LINE)
                 size = rng.choice([0, 1, 3, 3, 10, 1023, 1025, 1500, 3000]) if rng.random() < 0.8 else rng.choice([5000, 70000])
-                params = [f"size={size}"] + rng.sample(["mime=text/plain", "token=s3cret", "mime=text/gemini"], rng.randint(0, 2))
+                params = [f"size={size}"] + rng.sample(["mime=text/plain", "token=s3cret", "mime=text/gemini", "token=c2VjcmV0MQ==", "token=k=v", "token==", "mime=text/plain;charset=utf-8"], rng.randint(0, 2))
                 rng.shuffle(params)
                 b = ("titan" + line[6:] + ";" + ";".join(params)).encode()
                 titan_ok = {"size": size, "path": comps0[2], "host": comps0[0], "port": comps0[1]} if len(b) <= 1022 and ";" not in comps0[2] else None
